@@ -716,34 +716,12 @@ fn left_recursion<'a, 'i: 'a>(
         match node.expr.clone() {
             ParserExpr::Ident(other) => enter(other, node.span, rules, types, trace, done, skips),
             ParserExpr::Seq(ref lhs, ref rhs) => {
-                let current = trace.last().unwrap().0.clone();
-                if is_non_failing(&lhs.expr, rules, &mut vec![current.clone()])
-                    || is_non_progressing(&lhs.expr, rules, &mut vec![current])
-                {
+                if may_match_nothing(lhs, rules, trace) {
                     // `lhs` may match without consuming input: what it calls first, the implicit
                     // WHITESPACE / COMMENT skip after it (outside atomic rules) and what `rhs`
                     // calls first are all reached at the same position.
                     check_expr(lhs, rules, types, trace, done, skips)
-                        .or_else(|| {
-                            if !skips {
-                                return None;
-                            }
-                            ["WHITESPACE", "COMMENT"].iter().find_map(|name| {
-                                if rules.contains_key(*name) {
-                                    enter(
-                                        name.to_string(),
-                                        lhs.span,
-                                        rules,
-                                        types,
-                                        trace,
-                                        done,
-                                        skips,
-                                    )
-                                } else {
-                                    None
-                                }
-                            })
-                        })
+                        .or_else(|| implicit_skip(lhs.span, rules, types, trace, done, skips))
                         .or_else(|| check_expr(rhs, rules, types, trace, done, skips))
                 } else {
                     check_expr(lhs, rules, types, trace, done, skips)
@@ -759,16 +737,59 @@ fn left_recursion<'a, 'i: 'a>(
             ParserExpr::PosPred(ref node) => check_expr(node, rules, types, trace, done, skips),
             ParserExpr::NegPred(ref node) => check_expr(node, rules, types, trace, done, skips),
             ParserExpr::Push(ref node) => check_expr(node, rules, types, trace, done, skips),
-            ParserExpr::RepExact(ref node, _)
-            | ParserExpr::RepMin(ref node, _)
-            | ParserExpr::RepMax(ref node, _)
-            | ParserExpr::RepMinMax(ref node, _, _) => {
-                check_expr(node, rules, types, trace, done, skips)
+            ParserExpr::RepMin(ref node, _) => check_expr(node, rules, types, trace, done, skips),
+            // A bounded repetition is a sequence of copies with implicit skips between them: the
+            // skip after the first copy is at the same position when that copy may match nothing.
+            ParserExpr::RepExact(ref inner, max)
+            | ParserExpr::RepMax(ref inner, max)
+            | ParserExpr::RepMinMax(ref inner, _, max) => {
+                let first_is_optional = match node.expr {
+                    ParserExpr::RepMax(..) | ParserExpr::RepMinMax(_, 0, _) => true,
+                    _ => false,
+                };
+                check_expr(inner, rules, types, trace, done, skips).or_else(|| {
+                    if max >= 2 && (first_is_optional || may_match_nothing(inner, rules, trace)) {
+                        implicit_skip(inner.span, rules, types, trace, done, skips)
+                    } else {
+                        None
+                    }
+                })
             }
             #[cfg(feature = "grammar-extras")]
             ParserExpr::NodeTag(ref node, _) => check_expr(node, rules, types, trace, done, skips),
             _ => None,
         }
+    }
+
+    fn may_match_nothing<'a, 'i: 'a>(
+        node: &'a ParserNode<'i>,
+        rules: &'a HashMap<String, &ParserNode<'i>>,
+        trace: &[Entered],
+    ) -> bool {
+        let current = trace.last().unwrap().0.clone();
+        is_non_failing(&node.expr, rules, &mut vec![current.clone()])
+            || is_non_progressing(&node.expr, rules, &mut vec![current])
+    }
+
+    /// The implicit skip at this position (outside atomic rules): WHITESPACE and COMMENT are entered.
+    fn implicit_skip<'a, 'i: 'a>(
+        span: Span<'i>,
+        rules: &'a HashMap<String, &ParserNode<'i>>,
+        types: &HashMap<String, RuleType>,
+        trace: &mut Vec<Entered>,
+        done: &mut HashSet<Entered>,
+        skips: bool,
+    ) -> Option<Error<Rule>> {
+        if !skips {
+            return None;
+        }
+        ["WHITESPACE", "COMMENT"].iter().find_map(|name| {
+            if rules.contains_key(*name) {
+                enter(name.to_string(), span, rules, types, trace, done, skips)
+            } else {
+                None
+            }
+        })
     }
 
     let mut errors = vec![];
